@@ -155,18 +155,6 @@ Definition res_exact (r r' : res3) : bool :=
   | _, _ => false
   end.
 
-Definition look_sub (T T' : symtab) : bool :=
-  forallb (fun kv => match klookup (fst kv) T, klookup (fst kv) T' with
-                     | Some a, Some b => a =? b | _, _ => false end) T.
-
-(* same_outcome of Proofs/AsmMove.v, as a boolean *)
-Definition res_same (r r' : res3) : bool :=
-  match r, r' with
-  | XOk (b, i, T), XOk (b', i', T') => (b =? b') && list_eqb Z.eqb i i' && look_sub T T' && look_sub T' T
-  | XOk _, _ | _, XOk _ => false
-  | _, _ => true
-  end.
-
 Definition agrees (r : res3) (o : obs) : bool :=
   match r with
   | XOk (b, i, _) => match o with ObsOk b' i' => (b =? b') && list_eqb Z.eqb i i' | _ => false end
@@ -190,16 +178,14 @@ Definition law_case : Type := (program * program * law * obs * obs)%type.
    bit 1  the REAL CODE violates the law (hypotheses hold, the two sources do not assemble alike)
    bit 2  the hypotheses of the law do not hold of this case (nothing judged)
    bit 3  the Gallina transformation of p does not assemble exactly like the converted transformed text
-   bit 4  the MODEL violates the law (never expected: it is a theorem)
+   bit 4  the MODEL violates the law (provably never set: Props/R.v R_law_sound_bool)
    bit 5  the model answers Unsupported for one of the programs (nothing judged) *)
 Definition judge_law (c : law_case) : N :=
   let '(p, p2, l, o1, o2) := c in
-  match apply_law l p with
+  match law_pair l p with
   | None => 8%N
-  | Some tp =>
+  | Some (before, after) =>
       if negb (law_hyps l p) then 4%N else
-      let before := match l with LCut _ => tp | _ => p end in
-      let after := match l with LCut k => firstn k p ++ [End] | _ => tp end in
       let rb := show before in let ra := show after in let r2 := show p2 in
       if is_unsup rb || is_unsup ra || is_unsup r2 then 32%N else
       ((if agrees rb o1 && agrees r2 o2 then 0 else 1)
